@@ -26,9 +26,10 @@ def verdict(root):
         repo = Repo(root)
         facts = Facts(repo.asm)
         rep = Report('C13', 'other', 'front-end rules only')
-        lexrules.check_lexer(rep, facts)
+        lexer = lexrules.check_lexer(rep, facts)
         skips = lexrules.check_reader(rep, facts)
-        lexrules.check_handover(rep, facts, skips)
+        lexrules.check_handover(rep, facts, bool(skips))
+        lexrules.check_line_ends(rep, skips, lexer)
         lexrules.check_operand_spelling(rep, facts)
         lexrules.check_register_numbers(rep, facts)
     except AnalysisError as e:
@@ -55,7 +56,7 @@ def main():
     for kind, want, lst in (('breaking', 1, variants.BREAKING), ('preserving', 0, variants.PRESERVING),
                             ('undecided', 2, variants.UNDECIDED), ('preserving', 0, variants.C13_FRONTEND_PRESERVING)):
         for vid, props, edits in lst:
-            if vid.startswith(('c13-', 'p13-', 'u13-')) and vid not in FRONT_END_BLIND and '-isint-' not in vid:
+            if vid.startswith(('c13-', 'p13-', 'u13-', 'w13-')) and vid not in FRONT_END_BLIND and '-isint-' not in vid:
                 todo.append((kind, want, vid, edits))
     bad = 0
     for kind, want, vid, edits in todo:
@@ -76,7 +77,8 @@ def main():
 
 # C13 variants decided by the rules that are not part of the front end (REGISTERS table, BASE_OFFSET_INSTRUCTIONS; the `-isint-`
 # variants belong to R13.7 in props/c13.py / intlang.py)
-FRONT_END_BLIND = {'c13-fp-dropped', 'c13-s1', 'c13-lhu-missing'}
+FRONT_END_BLIND = {'c13-fp-dropped', 'c13-s1', 'c13-lhu-missing', 'w13-registers-item-assignment', 'w13-registers-update-literal',
+                   'w13-base-offset-add', 'w13-base-offset-ior', 'w13-regsmatch-helper', 'w13-isint-renamed', 'w13-isint-named-base', 'w13-rtype-number-converted'}
 
 if __name__ == '__main__':
     sys.exit(main())
